@@ -19,6 +19,7 @@ void vs_work(int k);
 // strictly increasing logical clock (consistent with real order: only the baton holder runs)
 uint64_t vs_now(void);
 uint64_t vs_steps(void);
+void vs_on_budget(void (*h)(const char*));   /* step budget exhausted: last chance for a harness-level progress verdict */
 // logical-clock stamp of the caller's first yield/pause point since the last reset (0 = none yet)
 void vs_first_yield_reset(void);
 uint64_t vs_first_yield(void);
